@@ -63,11 +63,13 @@ class Slot:
     shape: str | None = None  # None = Class[None] (scalar)
     optional: bool = False
     value: tuple = ("N",)  # ("N",) | ("X",) | ("T", dtcode, dims)
+    spell: str = "1"  # how an optional HINT is written in a signature: 1 `T | None`, 4 Optional[T], 5 `None | T`, 7 Optional[Optional[T]]
 
-    def spec(self) -> str:
+    def spec(self, hint: bool = False) -> str:
+        """`hint` = the spec is rendered as a type hint of a signature (CALL lines), not as an annotation object (CTX lines)"""
         if self.cls is None:
             return "-"
-        return f"{self.cls},{1 if self.optional else 0},{'<None>' if self.shape is None else self.shape}"
+        return f"{self.cls},{(self.spell if hint else 1) if self.optional else 0},{'<None>' if self.shape is None else self.shape}"
 
     def val(self) -> str:
         v = self.value
@@ -102,22 +104,27 @@ class Ctx:
             cmds.append("V")
         return "CTX\t" + self.scope_str() + "\t" + "\t".join(cmds)
 
-    def call_line(self, kind: str = "func", style: str = "pos", prov: str | None = None) -> str:
+    def call_line(self, kind: str = "func", style: str = "pos", prov: str | None = None, omit: int = 0) -> str:
         """the same context presented through an entry point"""
         if prov is None:
             prov = "obj" if self.scope else "-"
         items = []
         for p in self.params:
             if p.is_tuple:
-                items.append(f"P|{p.name}|T|{';'.join(s.spec() for s in p.slots)}|U:{';'.join(s.val() for s in p.slots)}")
+                items.append(f"P|{p.name}|T|{';'.join(s.spec(True) for s in p.slots)}|U:{';'.join(s.val() for s in p.slots)}")
             else:
-                items.append(f"P|{p.name}|S|{p.slots[0].spec()}|{p.slots[0].val()}")
+                items.append(f"P|{p.name}|S|{p.slots[0].spec(True)}|{p.slots[0].val()}")
         if self.ret is not None and kind in ("func", "method"):
             p = self.ret
             if p.is_tuple:
-                items.append(f"R|T|{';'.join(s.spec() for s in p.slots)}|U:{';'.join(s.val() for s in p.slots)}")
+                items.append(f"R|T|{';'.join(s.spec(True) for s in p.slots)}|U:{';'.join(s.val() for s in p.slots)}")
             else:
-                items.append(f"R|S|{p.slots[0].spec()}|{p.slots[0].val()}")
+                items.append(f"R|S|{p.slots[0].spec(True)}|{p.slots[0].val()}")
+        if omit and kind in ("func", "method"):
+            # the last `omit` parameters have their value as DEFAULT and the caller leaves them out
+            idx = [i for i, it in enumerate(items) if it.startswith("P|")]
+            for i in idx[len(idx) - min(omit, len(idx)):]:
+                items[i] = "PD|" + items[i][2:]
         return "\t".join(["CALL", f"{kind}:{style}", prov, self.scope_str(), *items])
 
     def entries(self) -> list[oracle.Ent] | None:
@@ -137,8 +144,9 @@ class Ctx:
 
 
 DIM_ALPHA = ["2", "3", "a", "b", "d", "c=2", "c=a+b", "a+1", "a*b", "b/2", "...", "*g", "*h", "min(a,b)", "n=3", "isqrt(a)", "a^2", "c", "max(a,d)-1", "e=a*b+d", "0", "e",
-             "a-b+d", "a*b/2"]  # (chains of equal precedence: the grouping matters)
-DIM_WEIGHTS = [3, 2, 6, 5, 2, 2, 3, 2, 2, 1, 2, 3, 1, 2, 1, 1, 1, 2, 1, 1, 1, 1, 1, 1]
+             "a-b+d", "a*b/2",  # (chains of equal precedence: the grouping matters)
+             "g", "g+1"]  # (a plain name that is also the name of a group: `*g` and `g` are different things)
+DIM_WEIGHTS = [3, 2, 6, 5, 2, 2, 3, 2, 2, 1, 2, 3, 1, 2, 1, 1, 1, 2, 1, 1, 1, 1, 1, 1, 1, 1]
 SIZES = [0, 1, 2, 3, 4, 5]
 
 
@@ -192,6 +200,7 @@ def derived(sig: dict) -> dict:
     s["c"] = s["a"] + s["b"]
     s["e"] = s["a"] * s["b"] + s["d"]
     s["n"] = 3
+    s.setdefault("g", 2)
     return s
 
 
@@ -223,7 +232,7 @@ def conforming_shape(rng, dims: list[str], sig: dict, groups: dict) -> tuple[int
 
 
 def gen_ctx(rng, max_tensors=4, tuple_p=0.2, ret_p=0.3, provider_p=0.3, libs=(0, 1, 2), perturb=(0, 0, 1, 1, 2)) -> Ctx:
-    sig = {"a": rng.choice(SIZES[1:]), "b": rng.choice(SIZES), "d": rng.choice(SIZES)}
+    sig = {"a": rng.choice(SIZES[1:]), "b": rng.choice(SIZES), "d": rng.choice(SIZES), "g": rng.choice(SIZES)}
     sig = derived(sig)
     groups = {"g": tuple(rng.choice(SIZES) for _ in range(rng.choice([0, 1, 2, 2, 3]))), "h": tuple(rng.choice(SIZES) for _ in range(rng.choice([0, 1, 2])))}
     ctx = Ctx()
@@ -245,7 +254,8 @@ def gen_ctx(rng, max_tensors=4, tuple_p=0.2, ret_p=0.3, provider_p=0.3, libs=(0,
         if shape is None:
             shape = tuple(rng.choice(SIZES) for _ in dims)
         lib = rng.choice(libs)
-        return Slot(cls_idx(cname), " ".join(dims) if dims else None, rng.random() < 0.15, ("T", dt(lib, rng.choice(CLASS_ALL[cname])), shape)), cname
+        return Slot(cls_idx(cname), " ".join(dims) if dims else None, rng.random() < 0.15, ("T", dt(lib, rng.choice(CLASS_ALL[cname])), shape),
+                    spell=rng.choice(["1", "1", "4", "5", "7"])), cname
 
     all_slots = []
     for i in range(nt):
